@@ -289,6 +289,33 @@ class SymBool:
     def __invert__(self):
         return SymBool(z3.Not(self.e))
 
+    # a bool used as a number (True > 0, int(flag), sum of flags)
+    def _num(self):
+        return Sym(z3.If(self.e, z3.RealVal(1), z3.RealVal(0)))
+
+    def __gt__(self, o):
+        return self._num() > o
+
+    def __ge__(self, o):
+        return self._num() >= o
+
+    def __lt__(self, o):
+        return self._num() < o
+
+    def __le__(self, o):
+        return self._num() <= o
+
+    def __add__(self, o):
+        return self._num() + (o._num() if isinstance(o, SymBool) else o)
+
+    __radd__ = __add__
+
+    def __int__(self):
+        return int(bool(self))
+
+    def __format__(self, spec):
+        return "<symbool>"
+
     def __repr__(self):
         return f"SymBool({self.e})"
 
